@@ -395,3 +395,50 @@ func VerifC07Growth() {
 	}
 	zz.Reach("C07/growth/done")
 }
+
+// VerifC07EntrySize: the encoded size of one entry swept across the boundaries of its length
+// varint (127/128/129, 255/256/257, 16383/16384/16385 bytes), plus exact multiples of 128:
+// custom writer -> custom reader and reference reader.
+func VerifC07EntrySize() {
+	targets := []int{126, 127, 128, 129, 255, 256, 257, 384, 16383, 16384, 16385}
+	target := targets[zz.Shard(len(targets))]
+	// entry = key(1+1+1) + flags(1+1) + ts(1+8) + value(1+varint(len)+len)
+	rest := target - 3 - 2 - 9 - 1
+	vlen := rest - 1
+	if rest-1 > 127 {
+		vlen = rest - 2
+	}
+	if rest-2 > 16383 {
+		vlen = rest - 3
+	}
+	val := make([]byte, vlen)
+	val[0] = zz.NondetU8("v.first")
+	val[vlen-1] = zz.NondetU8("v.last")
+	kv := snapshot.KV{Key: []byte{zz.NondetU8("k")}, Value: val, TimestampNano: zz.NondetU64("ts") | 1, Flags: 1}
+	after := snapshot.KV{Key: []byte("z"), Value: []byte{zz.NondetU8("z.val")}, TimestampNano: 3}
+	d := snapshot.NewDBISize(64)
+	d.SetName("d")
+	d.Append(snapshot.KV{Key: []byte("a"), TimestampNano: 1})
+	d.Append(kv)
+	d.Append(after)
+	data := d.Marshal()
+	d2, err := snapshot.NewDBIFromData(data)
+	zz.Assert(err == nil, "C07/entrysize/reader-accepts")
+	if err != nil {
+		return
+	}
+	got, err := vAll(d2)
+	zz.Assert(err == nil && len(got) == 3, "C07/entrysize/all-entries-decode")
+	if len(got) == 3 {
+		zz.Assert(bytes.Equal(got[1].Key, kv.Key) && len(got[1].Value) == vlen && got[1].TimestampNano == kv.TimestampNano, "C07/entrysize/entry")
+		zz.Assert(len(got[1].Value) == vlen && got[1].Value[0] == val[0] && got[1].Value[vlen-1] == val[vlen-1], "C07/entrysize/value-ends")
+		zz.Assert(bytes.Equal(got[2].Key, after.Key) && bytes.Equal(got[2].Value, after.Value), "C07/entrysize/following-entry")
+	}
+	var ref DBI
+	if rerr := ref.Unmarshal(data); rerr == nil {
+		zz.Assert(len(ref.Entries) == 3 && len(ref.Entries[1].Value) == vlen, "C07/entrysize/reference-agrees")
+	} else {
+		zz.Assert(false, "C07/entrysize/reference-accepts")
+	}
+	zz.Reach("C07/entrysize/done")
+}
